@@ -47,12 +47,19 @@ def check_state(y, m, d, n, w, doy, prev_year=None):
                             % (y, m, d + f, got, w)))
         except Exception as ex:
             out.append(("dow", "Epoch(%d,%d,%r).dow() raised %r" % (y, m, d + f, ex)))
-    # the first instant of the civil day and 1e-8 day (0.9 ms) before its end.  (The last *representable*
-    # instant is not probed: for JDE < 16384 the sum JDE + 1.5 of the stated formula itself rounds up there.)
-    for j in (n - 0.5, n + 0.5 - 1e-8):
+    # the first instant of the civil day, 1e-8 day (0.9 ms) before its end, and the last *representable* instant
+    # of the day - except for JDE < 16384 and on the days on which JDE + 2 crosses a power of two, where the sum
+    # JDE + 1.5 of the stated formula itself rounds up in double precision.
+    probes = [n - 0.5, n + 0.5 - 1e-8]
+    if n >= 16384 and (n + 2).bit_length() == (n - 1).bit_length():
+        probes.append(math.nextafter(n + 0.5, 0.0))
+    for j in probes:
         try:
-            got = Epoch(j).dow()
-            if got != w:
+            e = Epoch(j)
+            got = e.dow()
+            # (the constructor re-derives a bare JDE through the calendar and may hand back the neighbouring double:
+            # the weekday is judged for the instant the object holds)
+            if got != (w if e._jde < n + 0.5 else (w + 1) % 7):
                 out.append(("dow_edge", "Epoch(%r).dow() = %r, model %d for the civil day %d-%d-%d"
                             % (j, got, w, y, m, d)))
         except Exception as ex:
@@ -282,10 +289,39 @@ SEAM_UT = [-300.0, -235.0, -120.0, -30.0, -1.0, -1e-3, 0.0, 1e-3, 0.01, 0.1, 0.5
 SEAM_WRAP = [-1.0, -0.01, -1e-4, 1e-4, 0.001, 0.01, 0.5, 1.0, 2.0]                                  # seconds from theta = 0
 
 
+def wrap_neighbours(j0, th0):
+    """The two adjacent doubles between which the library's mean sidereal time wraps on the day starting at j0
+    (located by bisection on the library's own function), with 3 more doubles on each side."""
+    tw = j0 + (1.0 - th0) / RATE
+    lo, hi = tw - 2e-6, tw + 2e-6
+    if not (0.0 <= lo and hi <= 5.4e6):
+        return []
+    f = lambda t: Epoch(t).mean_sidereal_time()
+    try:
+        if not (f(lo) > 0.5 > f(hi)):
+            return []
+        while math.nextafter(lo, math.inf) < hi:
+            mid = lo + (hi - lo) / 2.0
+            if f(mid) > 0.5:
+                lo = mid
+            else:
+                hi = mid
+    except Exception:
+        return [tw]
+    out = [lo, hi]
+    a, b = lo, hi
+    for _ in range(3):
+        a = math.nextafter(a, -math.inf)
+        b = math.nextafter(b, math.inf)
+        out += [a, b]
+    return out
+
+
 def seam_instants(y):
     """For year y: around 0h UT of every day whose sidereal time at 0h UT lies within 0.015 turn of the
     wrap (the only days on which the sum of the 0h value and the day term can reach 1 before midnight)
-    and of every 10th day; and around the instant at which the sidereal time passes 0, every 20th day."""
+    and of every 10th day; around the instant at which the sidereal time passes 0, every 20th day; and, every
+    day, the last doubles before and the first doubles after the wrap."""
     n0 = c01.cal_fast().n(y, 1, 1)
     n1 = c01.cal_fast().n(y + 1, 1, 1)
     pts = []
@@ -294,6 +330,7 @@ def seam_instants(y):
         th0 = float(gmst_iau82(j0))
         if th0 > 0.985 or th0 < 0.015 or k % 10 == 0:
             pts += [j0 + d / 86400.0 for d in SEAM_UT]
+        pts += wrap_neighbours(j0, th0)
         if k % 20 == 0:
             t_wrap = j0 + (1.0 - th0) / RATE
             pts += [t_wrap + d / 86400.0 for d in SEAM_WRAP]
